@@ -450,3 +450,119 @@ def all_tasks(tier, props=("C11",), only=None):
         for m in ms:
             out.append(task("vf.contracts.layers", "ob_layer", f"layer.{mixin}.{m}/public-spec+frame", ["C11", "C12", "C13"], mixin=mixin, method=m, tier=tier))
     return out
+
+
+# ---- composition: which layers sit on which -------------------------------------------------------------------------
+
+UNDER_CONTRACT = {"ConcreteHandlerMixin", "EagerResolutionMixin", "ConstraintFilterMixin", "ConstraintDeduplicatorMixin", "SimplifySkipperMixin", "SatCacheMixin",
+                  "ModelCacheMixin", "ConstraintExpansionMixin", "SimplifyHelperMixin", "CompositedCacheMixin", "FullFrontend", "ConstrainedFrontend", "Frontend",
+                  "ReplacementFrontend", "HybridFrontend", "LightFrontend", "CompositeFrontend"}
+# layers whose contract assumes that the stack below answers EXACTLY for the constraint set (they remember answers / models and add what they
+# learned as constraints): below them there must be no frontend whose answers depend on `exact=` or are over-approximations
+NEED_EXACT_BELOW = {"SatCacheMixin", "ModelCacheMixin", "ConstraintExpansionMixin", "CompositedCacheMixin"}
+APPROXIMATING = {"HybridFrontend", "LightFrontend"}
+
+
+def ob_stack_composition():
+    """the per-layer proofs compose only for the stacks they were made for: every class in the MRO of every public solver class is a layer under
+    contract, and a layer that caches answers or learns constraints from answers has only exact frontends below it (SolverVSA / SolverConcrete
+    use LightFrontend over an exact-or-refusing backend with no caching layer; SolverHybrid mixes exact and approximate answers and therefore
+    carries no cache of its own)."""
+    import inspect
+    import claripy
+    from claripy.frontend import Frontend
+    from vf.engine import paths
+    res = paths.Result()
+    res.paths = 1
+    problems = []
+    n = 0
+    for name, cls in vars(claripy.solvers).items():
+        if not (inspect.isclass(cls) and issubclass(cls, Frontend)):
+            continue
+        mro = [k.__name__ for k in cls.__mro__[1:-1]]
+        for i, k in enumerate(mro):
+            n += 1
+            if k not in UNDER_CONTRACT:
+                problems.append(f"{name}: layer {k} is not under contract")
+            if k in NEED_EXACT_BELOW:
+                bad = [b for b in mro[i + 1:] if b in APPROXIMATING]
+                if bad:
+                    problems.append(f"{name}: {k} (remembers answers) sits above {bad[0]}, whose answers depend on exact= / over-approximate: an approximate answer is replayed for an exact query")
+    res.vcs = n
+    for p in problems:
+        f = paths.Failure("stack-composition", "frame", {}, p, [])
+        f.replay = replay_composition()
+        res.failures.append(f)
+    res.status = "violated" if problems else ("discharged" if n else "undecided")
+    return res
+
+
+def replay_composition(task=None, failure=None):
+    """native: a constraint set that Z3 refutes and the VSA cannot; an approximate query first, then an exact one"""
+    import claripy
+    x = claripy.BVS("kf_comp_x", 8, explicit_name=True)
+    s = claripy.SolverHybrid()
+    s.add(x * x == 3)
+    try:
+        a = s.satisfiable(exact=False)
+        b = s.satisfiable()
+    except Exception as e:  # noqa
+        return {"reproduced": False, "text": f"SolverHybrid raised {type(e).__name__}: {e}"}
+    ref = claripy.Solver()
+    ref.add(x * x == 3)
+    want = ref.satisfiable()
+    return {"reproduced": b != want, "text": f"SolverHybrid: add(x * x == 3); satisfiable(exact=False) = {a}; satisfiable() = {b}; a plain Solver: {want}"}
+
+
+# ---- coverage: every method of a caching / filtering layer has an obligation ---------------------------------------------------
+
+PROTOCOL = {"__init__", "_blank_copy", "_copy", "__getstate__", "__setstate__"}      # C14 / C18: statecov (attribute coverage, ownership, fidelity)
+METHOD_TABLE = {
+    "SatCacheMixin": {"under contract (mixins.ob_satcache)": {"satisfiable", "check_satisfiability", "eval", "batch_eval", "max", "min", "solution", "unsat_core", "simplify", "_add"}},
+    "ModelCacheMixin": {"under contract (mixins.ob_modelcache*, mergesplit.ob_mc_*)": {"min", "max", "eval", "batch_eval", "solution", "satisfiable", "_add", "_trivial_model_optimization",
+                                                                                       "split", "combine", "_model_hook", "_get_models", "_get_batch_solutions", "_get_solutions"},
+                        "bounded part only": {"simplify", "update"}},
+    "CompositedCacheMixin": {"under contract (composite.ob_composite*)": {"_remove_cached", "_solver_for_names", "downsize", "_store_child"}},
+    "ConstraintFilterMixin": {"under contract (layers)": set(METHODS["ConstraintFilterMixin"]) | {"_constraint_filter"}},
+}
+for _m, _ms in METHODS.items():
+    METHOD_TABLE.setdefault(_m, {"under contract (layers)": set(_ms)})
+
+
+def ob_method_coverage():
+    """every method defined by a solver mixin (read from the current source) is accounted for: under contract, part of the copy / pickle protocol
+    (statecov), or listed as covered by the bounded part only.  A method that is added to a caching layer without an obligation (a downsize()
+    that clears half of the cache, say) changes the layer's invariant behind the back of the proofs."""
+    import ast
+    import hashlib
+    import os
+    from vf.engine import paths
+    res = paths.Result()
+    res.paths = 1
+    problems = []
+    root = os.path.join(loader.REPO, "claripy", "frontend", "mixin")
+    seen = set()
+    for fn in sorted(os.listdir(root)):
+        if not fn.endswith(".py") or fn == "__init__.py":
+            continue
+        rel = f"claripy/frontend/mixin/{fn}"
+        src = open(os.path.join(root, fn)).read()
+        loader.SOURCES[rel] = hashlib.sha256(src.encode()).hexdigest()
+        for cls in [n for n in ast.parse(src).body if isinstance(n, ast.ClassDef)]:
+            if cls.name not in METHOD_TABLE:
+                if cls.name.endswith("Mixin") and cls.name != "SolveBlockMixin":
+                    problems.append(f"{rel}: mixin {cls.name} has no obligations at all")
+                continue
+            seen.add(cls.name)
+            known = set(PROTOCOL).union(*METHOD_TABLE[cls.name].values())
+            for m in [n for n in cls.body if isinstance(n, (ast.FunctionDef, ast.AsyncFunctionDef))]:
+                res.vcs += 1
+                if m.name not in known:
+                    problems.append(f"{cls.name}.{m.name} (line {m.lineno} of {rel}) has no obligation: it can change the layer's state outside every proved invariant")
+    for k in METHOD_TABLE:
+        if k not in seen:
+            problems.append(f"mixin {k} not found in claripy/frontend/mixin (moved or renamed?)")
+    for p in problems:
+        res.failures.append(paths.Failure("layer.method-coverage", "frame", {}, p, []))
+    res.status = "violated" if problems else ("discharged" if res.vcs else "undecided")
+    return res
